@@ -4,11 +4,14 @@
 package main
 
 import (
+	"encoding/json"
 	"fmt"
 	"os"
+	"runtime"
 	"runtime/debug"
 	"runtime/pprof"
 	"sort"
+	"strconv"
 	"strings"
 	"sync"
 	"time"
@@ -491,9 +494,17 @@ func main() {
 	// until the second GC after their last use, so a proportional GC target (GOGC) would chase its own garbage:
 	// collect on a fixed heap budget instead.
 	debug.SetGCPercent(-1)
-	debug.SetMemoryLimit(2 << 30)
+	if r.IsWorker() {
+		debug.SetMemoryLimit(384 << 20)
+	} else {
+		debug.SetMemoryLimit(2 << 30)
+	}
 	buildTables()
 	selfCheck()
+	timing := os.Getenv("VERIF_C01_TIMING") != ""
+	if timing {
+		fmt.Fprintf(os.Stderr, "tables+selfcheck: %v\n", time.Since(r.Start))
+	}
 
 	full := alphabetOf(patterns, nKinds)
 	sub := alphabetOf(subPatterns, kGRP) // without the group kind
@@ -519,101 +530,41 @@ func main() {
 		}
 	}
 
-	if pf := os.Getenv("VERIF_C01_PROFILE"); pf != "" { // developer aid: CPU profile of a truncated run
-		f, _ := os.Create(pf)
+	profile := os.Getenv("VERIF_C01_PROFILE") // developer aid: CPU/mutex profile of a truncated in-process run
+	if profile != "" {
+		f, _ := os.Create(profile)
 		_ = pprof.StartCPUProfile(f)
+		runtime.SetMutexProfileFraction(5)
 		if len(items) > 40 {
 			items = items[:40]
 			r.Cap("developer profile run: truncated to 40 work items")
 		}
 	}
-	var mu sync.Mutex
-	states := map[*core.Local]*wstate{}
-	r.Parallel(len(items), func(i int, l *core.Local) {
-		mu.Lock()
-		ws := states[l]
-		if ws == nil {
-			ws = newWstate()
-			states[l] = ws
+	// Every fiber app owns a sync.Pool and the first use of a pool takes a process-wide runtime lock
+	// (sync.Pool.pinSlow/allPoolsMu): with millions of apps, goroutines of ONE process spend most of their time
+	// queueing there. The tables are therefore sharded over single-threaded worker processes.
+	switch {
+	case r.IsWorker():
+		export(r, enumerate(r, items))
+		r.Finish(core.Evidence{}) // writes the partial and exits
+	case profile != "" || os.Getenv("VERIF_C01_INPROC") != "":
+		export(r, enumerate(r, items))
+		pprof.StopCPUProfile()
+		if profile != "" {
+			f, _ := os.Create(profile + ".mutex")
+			_ = pprof.Lookup("mutex").WriteTo(f, 0)
+			f.Close()
 		}
-		mu.Unlock()
-		if r.Expired() {
-			r.Cap("wall-clock budget reached before all tables were run")
-			return
-		}
-		it := items[i]
-		if it.last == nil {
-			ws.runTable(it.prefix, it.paths, l, false)
-			return
-		}
-		tbl := make([]entry, len(it.prefix)+1)
-		copy(tbl, it.prefix)
-		for j, e := range it.last {
-			tbl[len(it.prefix)] = e
-			ws.runTable(tbl, it.paths, l, i%37 == 5 && j%41 == 7)
-		}
-	})
-
-	pprof.StopCPUProfile()
-	// deterministic merge of the workers' accumulators
-	tot := newAcc()
-	for _, ws := range states {
-		a := ws.acc
-		tot.apps += a.apps
-		tot.evals += a.evals
-		tot.nontrivial += a.nontrivial
-		tot.bucketed += a.bucketed
-		tot.overrides += a.overrides
-		tot.unspecified += a.unspecified
-		tot.samples = append(tot.samples, a.samples...)
-		for s := range a.outc {
-			for n := range a.outc[s] {
-				for o := range a.outc[s][n] {
-					tot.outc[s][n][o] += a.outc[s][n][o]
-				}
-			}
-		}
-		for sig, v := range a.viol {
-			t, ok := tot.viol[sig]
-			if !ok {
-				t = &vrec{key: ^uint64(0)}
-				tot.viol[sig] = t
-			}
-			t.count += v.count
-			if v.key < t.key {
-				t.key, t.what, t.cs, t.o, t.e = v.key, v.what, v.cs, v.o, v.e
-			}
+	default:
+		if crashed := r.SpawnWorkers(runtime.NumCPU(), []string{"GOMAXPROCS=1"}); len(crashed) > 0 {
+			core.Fatal("worker process failed: %v", crashed)
 		}
 	}
-	r.Add("apps_built", tot.apps)
-	r.Add("evaluations", tot.evals)
-	r.Add("nontrivial", tot.nontrivial)
-	r.Add("requests_selecting_a_specific_bucket", tot.bucketed)
-	r.Add("evaluations_with_effective_override", tot.overrides)
-	r.Add("unspecified_skipped", tot.unspecified)
-	stNames := [5]string{"200", "404", "405", "none", "other"}
-	ovNames := [4]string{"no-override-handler", "path-override-handler", "method-override-handler", "path+method-override-handlers"}
-	for s := range tot.outc {
-		for n := range tot.outc[s] {
-			for o := range tot.outc[s][n] {
-				if c := tot.outc[s][n][o]; c > 0 {
-					key := fmt.Sprintf("status=%s handlers_run=%d %s", stNames[s], n, ovNames[o])
-					r.P.Outcomes[key] += c
-				}
-			}
-		}
+	if timing {
+		fmt.Fprintf(os.Stderr, "enumeration done: %v\n", time.Since(r.Start))
 	}
-	sigs := make([]string, 0, len(tot.viol))
-	for s := range tot.viol {
-		sigs = append(sigs, s)
-	}
-	sort.Strings(sigs)
-	for _, s := range sigs {
-		v := tot.viol[s]
-		r.Violate(s, v.what, v.cs, v.o, v.e)
-		r.P.Violations[s].Count = v.count
-	}
-	if tot.bucketed == 0 {
+	tot := collect(r)
+	if r.P.Counters["requests_selecting_a_specific_bucket"] == 0 {
 		core.Fatal("vacuous: no request ever selected a bucket other than the global one")
 	}
 
@@ -649,8 +600,8 @@ func main() {
 		Level:      "exploration",
 		Exhaustive: true,
 		Coverage: map[string]any{
-			"evaluations":         tot.evals,
-			"distinct_nontrivial": tot.nontrivial,
+			"evaluations":         r.P.Counters["evaluations"],
+			"distinct_nontrivial": r.P.Counters["nontrivial"],
 			"rule":                rule,
 			"bounds":              bounds,
 			"samples":             samples,
@@ -713,4 +664,145 @@ func selfCheck() {
 			}
 		}
 	}
+}
+
+// enumerate runs the work items of this process' shard and returns the deterministically merged accumulator.
+func enumerate(r *core.Run, items []item) *acc {
+	var mu sync.Mutex
+	states := map[*core.Local]*wstate{}
+	r.Parallel(len(items), func(i int, l *core.Local) {
+		if !r.Shard(i) {
+			return
+		}
+		mu.Lock()
+		ws := states[l]
+		if ws == nil {
+			ws = newWstate()
+			states[l] = ws
+		}
+		mu.Unlock()
+		if r.Expired() {
+			r.Cap("wall-clock budget reached before all tables were run")
+			return
+		}
+		it := items[i]
+		if it.last == nil {
+			ws.runTable(it.prefix, it.paths, l, false)
+			return
+		}
+		tbl := make([]entry, len(it.prefix)+1)
+		copy(tbl, it.prefix)
+		for j, e := range it.last {
+			tbl[len(it.prefix)] = e
+			ws.runTable(tbl, it.paths, l, i%37 == 5 && j%41 == 7)
+		}
+	})
+	tot := newAcc()
+	for _, ws := range states {
+		a := ws.acc
+		tot.apps += a.apps
+		tot.evals += a.evals
+		tot.nontrivial += a.nontrivial
+		tot.bucketed += a.bucketed
+		tot.overrides += a.overrides
+		tot.unspecified += a.unspecified
+		tot.samples = append(tot.samples, a.samples...)
+		for s := range a.outc {
+			for n := range a.outc[s] {
+				for o := range a.outc[s][n] {
+					tot.outc[s][n][o] += a.outc[s][n][o]
+				}
+			}
+		}
+		for sig, v := range a.viol {
+			t, ok := tot.viol[sig]
+			if !ok {
+				t = &vrec{key: ^uint64(0)}
+				tot.viol[sig] = t
+			}
+			t.count += v.count
+			if v.key < t.key {
+				t.key, t.what, t.cs, t.o, t.e = v.key, v.what, v.cs, v.o, v.e
+			}
+		}
+	}
+	return tot
+}
+
+const (
+	keySep       = "\x1f"
+	samplePrefix = "c01-sample:"
+)
+
+// export puts an accumulator into the run's partial. Counters and outcomes add up in core's merge; a violation
+// example and the sample candidates travel with their order key (in the map key / in a note) so that the
+// parent can pick the SAME example whatever order the worker partials arrive in.
+func export(r *core.Run, a *acc) {
+	r.Add("apps_built", a.apps)
+	r.Add("evaluations", a.evals)
+	r.Add("nontrivial", a.nontrivial)
+	r.Add("requests_selecting_a_specific_bucket", a.bucketed)
+	r.Add("evaluations_with_effective_override", a.overrides)
+	r.Add("unspecified_skipped", a.unspecified)
+	stNames := [5]string{"200", "404", "405", "none", "other"}
+	ovNames := [4]string{"no-override-handler", "path-override-handler", "method-override-handler", "path+method-override-handlers"}
+	for s := range a.outc {
+		for n := range a.outc[s] {
+			for o := range a.outc[s][n] {
+				if c := a.outc[s][n][o]; c > 0 {
+					r.P.Outcomes[fmt.Sprintf("status=%s handlers_run=%d %s", stNames[s], n, ovNames[o])] += c
+				}
+			}
+		}
+	}
+	for sig, v := range a.viol {
+		r.P.Violations[fmt.Sprintf("%s%s%020d", sig, keySep, v.key)] = &core.Violation{Signature: sig, What: v.what, Case: v.cs, Observed: v.o, Expected: v.e, Count: v.count}
+	}
+	for _, sm := range a.samples {
+		b, _ := json.Marshal(map[string]any{"key": fmt.Sprintf("%020d", sm.key), "v": sm.v})
+		r.P.Notes = append(r.P.Notes, samplePrefix+string(b))
+	}
+}
+
+// collect undoes export on the merged partial: per signature the example with the smallest order key and the
+// summed count; the sample candidates are taken out of the notes.
+func collect(r *core.Run) *acc {
+	tot := newAcc()
+	keys := make([]string, 0, len(r.P.Violations))
+	for k := range r.P.Violations {
+		keys = append(keys, k)
+	}
+	sort.Strings(keys) // same signature: ascending order key
+	merged := map[string]*core.Violation{}
+	for _, k := range keys {
+		v := r.P.Violations[k]
+		sig := k
+		if i := strings.Index(k, keySep); i >= 0 {
+			sig = k[:i]
+		}
+		if m, ok := merged[sig]; ok {
+			m.Count += v.Count
+		} else {
+			v.Signature = sig
+			merged[sig] = v
+		}
+	}
+	r.P.Violations = merged
+	var notes []string
+	for _, n := range r.P.Notes {
+		if !strings.HasPrefix(n, samplePrefix) {
+			notes = append(notes, n)
+			continue
+		}
+		var rec struct {
+			Key string `json:"key"`
+			V   any    `json:"v"`
+		}
+		if json.Unmarshal([]byte(n[len(samplePrefix):]), &rec) == nil {
+			k, _ := strconv.ParseUint(rec.Key, 10, 64)
+			tot.samples = append(tot.samples, sampleRec{k, rec.V})
+		}
+	}
+	r.P.Notes = notes
+	return tot
 }
